@@ -803,7 +803,15 @@ func (q *checker) bcheckWhile(n *a.While) error {
 		}
 	}
 
-	// Check the while condition.
+	// Check the while condition, assuming only the pre and inv conditions. Any
+	// other fact might hold only on the first iteration.
+	q.facts = q.facts[:0]
+	for _, o := range n.Asserts() {
+		if o.AsAssert().Keyword() == t.IDPost {
+			continue
+		}
+		q.facts.appendFact(o.AsAssert().Condition())
+	}
 	if _, err := q.bcheckExpr(n.Condition(), 0); err != nil {
 		return err
 	}
